@@ -26,6 +26,7 @@ Inductive role :=
 | RAlias                    (* alias of a term or table; GROUP BY / ORDER BY reference to a selected alias *)
 | RAliasC                   (* alias of a BasicCriterion: quote_char does not reach format_alias_sql *)
 | RAliasQ                   (* _SetOperation ORDER BY reference to a selected alias: format_quotes(alias, quote_char) *)
+| RQual                     (* a table's ALIAS used as the qualifier of a column (Field / Star namespace): quote_char *)
 | RQAlias (inner : cls)     (* alias of a sub-query built by class [inner] *)
 | RCte.                     (* name of a WITH clause and references to it: rendered bare by every class *)
 
@@ -84,11 +85,15 @@ Fixpoint rmapM {A B} (f : A -> res B) (l : list A) : res (list B) :=
   end.
 
 (* ---------------- expressions: Terms.render with tokens ---------------- *)
+(* the namespace of a column: the table's name, or - when the table carries an alias - that alias.  A sub-query source
+   has an empty name (Query.src_ref): its qualifier is the query alias, which Snowflake deliberately leaves bare. *)
+Definition qual_role (tb : tref) : role :=
+  if truthy_ostr (talias tb) then (match tname tb with EmptyString => RIdent | _ => RQual end) else RIdent.
 Definition field_toks (c : ctx) (og : origin) (name : string) (tbl : option tref) : list dtok :=
   let base := [(false, AId RIdent (q c) name og)] in
   match tbl with
   | Some tb => if wn c || truthy_ostr (talias tb)
-               then (false, AId RIdent (q c) (table_name tb) og) :: T "." :: base else base
+               then (false, AId (qual_role tb) (q c) (table_name tb) og) :: T "." :: base else base
   | None => base end.
 
 Fixpoint ttoks (c : ctx) (og : origin) (t : term) {struct t} : res (list dtok) :=
@@ -98,7 +103,7 @@ Fixpoint ttoks (c : ctx) (og : origin) (t : term) {struct t} : res (list dtok) :
       Ok (if wa c then alias_toks c og (q c) s alias else s)
   | TStar tbl =>
       Ok (match tbl with
-          | Some tb => if wn c || truthy_ostr (talias tb) then [(false, AId RIdent (q c) (table_name tb) og); T ".*"] else [T "*"]
+          | Some tb => if wn c || truthy_ostr (talias tb) then [(false, AId (qual_role tb) (q c) (table_name tb) og); T ".*"] else [T "*"]
           | None => [T "*"] end)
   | TValS s alias => Ok (alias_toks c og (q c) [(false, AStr (sq c) s og)] alias)
   | TValI z alias => Ok (alias_toks c og (q c) [T (Z_to_string z)] alias)
@@ -352,13 +357,11 @@ Definition qins_toks (kin : kctx) (og0 : origin) (walias subquery pv : bool) (al
       rs <- rmapM (fun row => vs <- rmapM (it kk og [] (set_subq (set_wa base true) true)) row ;; Ok (tjoin "," vs)) rows ;;
       Ok (head ++ cols ++ T " VALUES (" :: tjoin "),(" rs ++ [T ")"])
   | [], Some y =>
+      (* QueryBuilder.get_sql: an INSERT whose SELECT part selects nothing renders as the empty string *)
+      if Nat.eqb (nselects y) 0 then Ok [] else
       s <- qt kk og false false false (qalias y) y ;;
-      match s with
-      | [] => Ok []
-      | _ =>
-        let body := vparen subquery pv (head ++ cols ++ T " " :: s) in
-        Ok (if walias then falias (RQAlias c) og body ali (q base) (qalias_quote c) (askw base) else body)
-      end
+      let body := vparen subquery pv (head ++ cols ++ T " " :: s) in
+      Ok (if walias then falias (RQAlias c) og body ali (q base) (qalias_quote c) (askw base) else body)
   end.
 
 Definition qupd_toks (kin : kctx) (og0 : origin) (c0 : cls) (tbl : tref) (sets : list (term * item)) (from : list source)
@@ -453,15 +456,19 @@ Section Relabel.
 Variable rho : cls -> cls.
 Definition base_cls := base_cls_of rho.
 
-Fixpoint itoks (n : nat) : kctx -> origin -> list tref -> ctx -> item -> res (list dtok) :=
+(* the recursive calls are eta-expanded so that call-by-value evaluation does not unfold all fuel levels eagerly *)
+Fixpoint itoks (n : nat) (k : kctx) (og : origin) (srcs : list tref) (c : ctx) (i : item) {struct n} : res (list dtok) :=
   match n with
-  | O => fun _ _ _ _ _ => Err "fuel"
-  | S n' => item_toks (itoks n') (qtoks n')
+  | O => Err "fuel"
+  | S n' => item_toks (fun k og srcs c i => itoks n' k og srcs c i)
+                      (fun kin og0 wal sub pv ali x => qtoks n' kin og0 wal sub pv ali x) k og srcs c i
   end
-with qtoks (n : nat) : kctx -> origin -> bool -> bool -> bool -> option string -> query -> res (list dtok) :=
+with qtoks (n : nat) (kin : kctx) (og0 : origin) (walias subquery pv : bool) (ali : option string) (x : query) {struct n}
+  : res (list dtok) :=
   match n with
-  | O => fun _ _ _ _ _ _ _ => Err "fuel"
-  | S n' => query_toks rho (itoks n') (qtoks n')
+  | O => Err "fuel"
+  | S n' => query_toks rho (fun k og srcs c i => itoks n' k og srcs c i)
+                       (fun kin og0 wal sub pv ali x => qtoks n' kin og0 wal sub pv ali x) kin og0 walias subquery pv ali x
   end.
 
 (* str(q), and q.get_sql with explicit keyword arguments *)
@@ -518,6 +525,7 @@ Definition exact_tok (v : conv) (t : dtok) : Prop :=
   | AId RAlias qu _ og => qu = or_ostr (og_aq v og) (v_q v)
   | AId RAliasC qu _ og => qu = or_ostr (og_aq v og) None
   | AId RAliasQ qu _ _ => qu = v_q v
+  | AId RQual qu _ _ => qu = v_q v
   | AId (RQAlias ci) qu _ _ => qu = or_ostr (qalias_quote ci) (v_q v)
   | AId RCte qu _ _ => qu = None
   | AStr qu _ og => qu = og_sq v og
@@ -533,6 +541,7 @@ Definition strict_tok (v : conv) (qa : option string) (t : dtok) : Prop :=
   | AId RAlias qu _ _ => qu = or_ostr (v_aq v) (v_q v)
   | AId RAliasC qu _ _ => qu = or_ostr (v_aq v) (v_q v)
   | AId RAliasQ qu _ _ => qu = or_ostr (v_aq v) (v_q v)
+  | AId RQual qu _ _ => qu = or_ostr (v_aq v) (v_q v)
   | AId (RQAlias _) qu _ _ => qu = or_ostr qa (v_q v)
   | AId RCte qu _ _ => qu = v_q v
   | AStr qu _ _ => qu = v_sq v
@@ -548,6 +557,7 @@ Definition strict_tokb (v : conv) (qa : option string) (t : dtok) : bool :=
   | AId RAlias qu _ _ => ostr_eqb qu (or_ostr (v_aq v) (v_q v))
   | AId RAliasC qu _ _ => ostr_eqb qu (or_ostr (v_aq v) (v_q v))
   | AId RAliasQ qu _ _ => ostr_eqb qu (or_ostr (v_aq v) (v_q v))
+  | AId RQual qu _ _ => ostr_eqb qu (or_ostr (v_aq v) (v_q v))
   | AId (RQAlias _) qu _ _ => ostr_eqb qu (or_ostr qa (v_q v))
   | AId RCte qu _ _ => ostr_eqb qu (v_q v)
   | AStr qu _ _ => ostr_eqb qu (v_sq v)
@@ -560,6 +570,7 @@ Definition benign_tok (v : conv) (qa : option string) (t : dtok) : bool :=
   | AId RAlias _ _ og => ostr_eqb (or_ostr (og_aq v og) (v_q v)) (or_ostr (v_aq v) (v_q v))
   | AId RAliasC _ _ og => ostr_eqb (or_ostr (og_aq v og) None) (or_ostr (v_aq v) (v_q v))
   | AId RAliasQ _ _ _ => ostr_eqb (v_q v) (or_ostr (v_aq v) (v_q v))
+  | AId RQual _ _ _ => ostr_eqb (v_q v) (or_ostr (v_aq v) (v_q v))
   | AId (RQAlias ci) _ _ _ => ostr_eqb (or_ostr (qalias_quote ci) (v_q v)) (or_ostr qa (v_q v))
   | AId RCte _ _ _ => ostr_eqb None (v_q v)
   | AStr _ _ og => ostr_eqb (og_sq v og) (v_sq v)
@@ -570,7 +581,7 @@ Definition benign_tok (v : conv) (qa : option string) (t : dtok) : bool :=
 (* ---------------- erasing quotes and documented vendor differences ---------------- *)
 Inductive erole := EIdent | EAlias | EQAlias | ECte.
 Definition erole_of (r : role) : erole :=
-  match r with RIdent => EIdent | RAlias | RAliasC | RAliasQ => EAlias | RQAlias _ => EQAlias | RCte => ECte end.
+  match r with RIdent => EIdent | RAlias | RAliasC | RAliasQ | RQual => EAlias | RQAlias _ => EQAlias | RCte => ECte end.
 Inductive etok := EText (s : string) | EId (r : erole) (name : string) | EStr (raw : string) | EBool (b : bool).
 Definition erase1 (t : dtok) : list etok :=
   if fst t then [] else
